@@ -17,7 +17,7 @@ BUDGET = {
 
 
 def strategy(tier):
-    return hist_case(nmax=24 if tier == "quick" else 60, maxlen=7 if tier == "quick" else 16, allow_other=True, allow_singular=True, allow_tune=True)
+    return hist_case(nmax=24 if tier == "quick" else 60, maxlen=7 if tier == "quick" else 16, allow_other=True, allow_singular=True, allow_tune=True, allow_query=True)
 
 
 def nontrivial(case, v):
